@@ -50,6 +50,8 @@ def run_one(item, tier):
         with wt_lock():
             subprocess.run(["git", "-C", "/repo", "worktree", "remove", "--force", wt], capture_output=True)
             shutil.rmtree(wt, ignore_errors=True)
+        # the run's own build directory (harness.common._build_root: build/alt-<sha1(VERIF_REPO)[:8]>); replays live in /verif/replays
+        shutil.rmtree(os.path.join(V, "build", "alt-" + hashlib.sha1(wt.encode()).hexdigest()[:8]), ignore_errors=True)
     return res
 
 def main():
